@@ -4,6 +4,8 @@ import (
 	"bytes"
 	"context"
 	"encoding/xml"
+	"fmt"
+	"io"
 	"mime"
 	"net/http"
 	"net/url"
@@ -720,7 +722,7 @@ func (b *backend) Put(w http.ResponseWriter, r *http.Request) error {
 	}
 
 	// TODO: check CALDAV:max-resource-size precondition
-	cal, err := ical.NewDecoder(r.Body).Decode()
+	cal, err := decodeCalendar(r.Body)
 	if err != nil {
 		// TODO: send CALDAV:valid-calendar-data error
 		return internal.HTTPErrorf(http.StatusBadRequest, "caldav: failed to parse iCalendar: %v", err)
@@ -746,6 +748,17 @@ func (b *backend) Put(w http.ResponseWriter, r *http.Request) error {
 	w.WriteHeader(http.StatusCreated)
 
 	return nil
+}
+
+// decodeCalendar parses an iCalendar object. The go-ical decoder panics on
+// some malformed content lines instead of returning an error.
+func decodeCalendar(r io.Reader) (cal *ical.Calendar, err error) {
+	defer func() {
+		if v := recover(); v != nil {
+			cal, err = nil, fmt.Errorf("malformed content line: %v", v)
+		}
+	}()
+	return ical.NewDecoder(r).Decode()
 }
 
 func (b *backend) Delete(r *http.Request) error {
